@@ -39,3 +39,9 @@ package syslwrapper
 //@   ghostset @call:syslwrapper.(*AppMapper).mapSimpleReturnType mapped
 //@   ensures [every-return-is-mapped] ghost("mapped")
 //@   ensures [collection-has-one-item] contains(retValue, "sequence of ") || contains(retValue, "set of ") ==> result != nil && len(result.Items) == 1
+
+// Only the primitive names that a return statement can spell count as primitives; every other name — in particular a
+// user type called Empty, Uuid or Xml — is looked up as a type of the application and exported as a reference to it.
+//@ func IsPrimitive
+//@   pure
+//@   ensures [exactly-the-spellable-primitives] result == (typeName == "double" || typeName == "int64" || typeName == "float64" || typeName == "string" || typeName == "bool" || typeName == "date" || typeName == "datetime")
